@@ -4,7 +4,7 @@ CONSTANTS
   MaxTerm = 1
   MaxProposals = 1
   MaxCrashes = 1
-  MaxDrops = 0
+  MaxDrops = 1
   MaxDups = 0
   MaxHeartbeats = 1
   MaxLog = 3
